@@ -1,5 +1,6 @@
 ------------------------------ MODULE ArgMap_MC ------------------------------
-(* The decision table: variables $p: Int and $q: Int = 3, each absent /     *)
+(* The decision table: variables $p: Int, $q: Int = 3 and $n: Int = null    *)
+(* (a default that is the null literal is still a default), each absent /   *)
 (* null / 5 in the supplied map; one argument of                            *)
 (*   f(i: Int, d: Int = 7, l: [Int], o: Obj, a: Any, e: E = RED,            *)
 (*     fl: Float, id: ID, fls: [Float])                                     *)
@@ -8,14 +9,14 @@
 (* the precedence law on every row.                                         *)
 EXTENDS ArgMap, TLC, Json
 
-VarDefs == << [name |-> "p", def |-> <<>>], [name |-> "q", def |-> <<VInt(3)>>] >>
+VarDefs == << [name |-> "p", def |-> <<>>], [name |-> "q", def |-> <<VInt(3)>>], [name |-> "n", def |-> <<VNull>>] >>   \* $n: Int = null
 Supply(name) == { <<>>, <<[name |-> name, v |-> VNull]>>, <<[name |-> name, v |-> VInt(5)]>> }
 
 ArgDefault(a) == CASE a = "d" -> <<VInt(7)>> [] a = "e" -> <<VEnum("RED")>> [] OTHER -> <<>>
 Uses(a) ==
-  CASE a \in {"i", "d"} -> { <<>>, <<VInt(1)>>, <<VNull>>, <<VVar("p")>>, <<VVar("q")>> }
-    [] a = "l" -> { <<>>, <<VList(<<VInt(1), VVar("p")>>)>>, <<VList(<<VVar("q"), VNull>>)>>, <<VList(<<>>)>>, <<VNull>> }
-    [] a = "o" -> { <<>>, <<VMap(<<Ent("x", VVar("p"))>>)>>,
+  CASE a \in {"i", "d"} -> { <<>>, <<VInt(1)>>, <<VNull>>, <<VVar("p")>>, <<VVar("q")>>, <<VVar("n")>> }
+    [] a = "l" -> { <<>>, <<VList(<<VInt(1), VVar("p")>>)>>, <<VList(<<VVar("q"), VNull>>)>>, <<VList(<<VVar("n"), VInt(2)>>)>>, <<VList(<<>>)>>, <<VNull>> }
+    [] a = "o" -> { <<>>, <<VMap(<<Ent("x", VVar("p"))>>)>>, <<VMap(<<Ent("x", VVar("n"))>>)>>,
                     <<VMap(<<Ent("x", VInt(1)), Ent("y", VList(<<VVar("q")>>)), Ent("z", VMap(<<Ent("x", VVar("p"))>>))>>)>>,
                     <<VMap(<<>>)>>, <<VNull>> }
     [] a = "a" -> { <<>>, <<VFloat("3.5")>>, <<VStr("s")>>, <<VEnum("ENUMV")>>, <<VBool(TRUE)>>,
@@ -28,21 +29,21 @@ Uses(a) ==
     [] a = "id" -> { <<>>, <<VStr("x")>>, <<VInt(4)>>, <<VBig>> }
     [] a = "fls" -> { <<>>, <<VList(<<VFloat("2.5"), VHuge>>)>>, <<VList(<<VBig>>)>> }
 
-VARIABLES arg, use, sp, sq
-vars == <<arg, use, sp, sq>>
+VARIABLES arg, use, sp, sq, sn
+vars == <<arg, use, sp, sq, sn>>
 Init == /\ arg \in {"i", "d", "l", "o", "a", "e", "fl", "id", "fls"}
         /\ use \in Uses(arg)
-        /\ sp \in Supply("p") /\ sq \in Supply("q")
+        /\ sp \in Supply("p") /\ sq \in Supply("q") /\ sn \in Supply("n")
 Next == UNCHANGED vars
 Spec == Init /\ [][Next]_vars
 
-CVars == CoercedVars(VarDefs, sp \o sq)
+CVars == CoercedVars(VarDefs, sp \o sq \o sn)
 Exp == ArgValue(ArgDefault(arg), use, CVars)
 ArgNames == <<"i", "d", "l", "o", "a", "e", "fl", "id", "fls">>
 ExpAll == [j \in 1..Len(ArgNames) |->
              LET a == ArgNames[j]  r == ArgValue(ArgDefault(a), IF a = arg THEN use ELSE <<>>, CVars)
              IN [arg |-> a, present |-> r.present, val |-> r.val]]
-Emit == PrintT(<<"CASE", ToJson([arg |-> arg, use |-> use, supplied |-> sp \o sq, cvars |-> CVars, exp |-> Exp, all |-> ExpAll])>>)
+Emit == PrintT(<<"CASE", ToJson([arg |-> arg, use |-> use, supplied |-> sp \o sq \o sn, cvars |-> CVars, exp |-> Exp, all |-> ExpAll])>>)
 
 \* precedence: literal > variable > default; explicit null is a value
 Precedence ==
@@ -55,4 +56,8 @@ VarLaw == /\ HasVar(CVars, "q")
           /\ (sq # <<>> /\ sq[1].v.k = "null") => VarVal(CVars, "q").k = "null"
           /\ (sq = <<>>) => VarVal(CVars, "q") = VInt(3)
           /\ HasVar(CVars, "p") <=> sp # <<>>
+          \* a default that is the literal null is applied like any other default
+          /\ HasVar(CVars, "n")
+          /\ (sn = <<>>) => VarVal(CVars, "n").k = "null"
+          /\ (sn # <<>>) => VarVal(CVars, "n") = sn[1].v
 =============================================================================
